@@ -32,20 +32,27 @@ def SimF (ctx : Ctx) (T : List FEntry) (B : Nat) (src : Nat → SCfg → Option 
 
 /-- what translating a statement (or a block) from converter state `s` to `s'` achieved -/
 def StmtSemF (ctx : Ctx) (T : List FEntry) (B : Nat) (src : Nat → SCfg → Option (SOut × SCfg)) (s s' : St) : Prop :=
-  ∃ cmds n mm, s' = adv2 s (flats cmds).reverse n mm ∧ SimF ctx T B src cmds s.forCounter
+  ∃ cmds n mm, s' = adv2 s (flats cmds).reverse n mm ∧ LinesOK ctx (s.forCounter + mm) (tnames T) (flats cmds) ∧
+    SimF ctx T B src cmds s.forCounter
 
 theorem ctxOf_adv2 (s : St) (new : List Line) (n mm : Nat) : ctxOf (adv2 s new n mm) = ctxOf s := rfl
 
 theorem StmtSemF.ctx {ctx : Ctx} {T : List FEntry} {B : Nat} {src} {s s' : St} (h : StmtSemF ctx T B src s s') : ctxOf s' = ctxOf s := by
-  obtain ⟨_, _, _, e, _⟩ := h; rw [e]; rfl
+  obtain ⟨_, _, _, e, _, _⟩ := h; rw [e]; rfl
 
 theorem StmtSemF.forCounter {ctx : Ctx} {T : List FEntry} {B : Nat} {src} {s s' : St} (h : StmtSemF ctx T B src s s') : s.forCounter ≤ s'.forCounter := by
-  obtain ⟨_, _, m, e, _⟩ := h; rw [e]; simp [adv2]
+  obtain ⟨_, _, m, e, _, _⟩ := h; rw [e]; simp [adv2]
 
 theorem StmtSemF.fors {ctx : Ctx} {T : List FEntry} {B : Nat} {src} {s s' : St} (h : StmtSemF ctx T B src s s') : s'.fors = s.fors := by
-  obtain ⟨_, _, _, e, _⟩ := h; rw [e]; rfl
+  obtain ⟨_, _, _, e, _, _⟩ := h; rw [e]; rfl
 
 theorem Inv.out {ctx : Ctx} {T : List FEntry} {c : SCfg} {m : Cfg} (h : Inv ctx T c m) : c.out = m.out := h.agree.out
+
+theorem linesOK_simples {ctx : Ctx} {hi : Nat} {ds : List String} {ls : List Line} (h : LinesOK ctx hi ds ls) :
+    LinesOK ctx hi ds (flats (ls.map Cmd.simple)) := by rw [flats_simples]; exact h
+
+theorem linesOK_plain1 (ctx : Ctx) (hi : Nat) (ds : List String) (l : Line) (h1 : lineTargets l = []) (h2 : isCall l = false) :
+    LinesOK ctx hi ds [l] := LinesOK.cons (sline_plain _ _ _ _ h1 h2) (LinesOK.nil _ _ _)
 
 /-- the lines of an expression as commands, then more commands -/
 theorem runs_ok_then {ctx : Ctx} {T : List FEntry} {B : Nat} {new : List Line} {lo n : Nat} {ts : List String} {m : Cfg} {os : List Opd} {c1 : SCfg}
@@ -69,7 +76,7 @@ theorem brk_semF {ctx : Ctx} {T : List FEntry} {B : Nat} {s s' : St} (h : conv.b
     StmtSemF ctx T B (fun fuel c => execS fuel .brk c) s s' := by
   have h' : addLine .brk s = .ok ((), s') := h
   have e := addLine_ok h'
-  refine ⟨[Cmd.simple .brk], 0, 0, by rw [e]; simp [adv2, flats, flat], ?_⟩
+  refine ⟨[Cmd.simple .brk], 0, 0, by rw [e]; simp [adv2, flats, flat], linesOK_simples (ls := [.brk]) (linesOK_plain1 _ _ _ _ rfl rfl), ?_⟩
   intro fuel c o c' hs m hi
   cases fuel with
   | zero => simp [execS] at hs
@@ -83,7 +90,7 @@ theorem cont_semF {ctx : Ctx} {T : List FEntry} {B : Nat} {s s' : St} (h : conv.
     StmtSemF ctx T B (fun fuel c => execS fuel .cont c) s s' := by
   have h' : addLine .cont s = .ok ((), s') := h
   have e := addLine_ok h'
-  refine ⟨[Cmd.simple .cont], 0, 0, by rw [e]; simp [adv2, flats, flat], ?_⟩
+  refine ⟨[Cmd.simple .cont], 0, 0, by rw [e]; simp [adv2, flats, flat], linesOK_simples (ls := [.cont]) (linesOK_plain1 _ _ _ _ rfl rfl), ?_⟩
   intro fuel c o c' hs m hi
   cases fuel with
   | zero => simp [execS] at hs
@@ -100,19 +107,20 @@ theorem esim_all_cons {ctx : Ctx} {T : List FEntry} {B : Nat} {e : Expr} {rest :
     (he : ESim ctx T B (fun f c => evalE f e c) newE lo nE r)
     (hr : ESim ctx T B (fun f c => Src.evalArgs f rest c) newR (lo + nE) nR ts) :
     ESim ctx T B (fun f c => Src.evalArgs f (e :: rest) c) (newR ++ newE) lo (nE + nR) (r ++ ts) := by
+  refine ⟨hr.lines.append he.lines, ?_⟩
   intro fuel c res hs m hi
   rcases src_args_cons hs with ⟨f, k, c1, h1, rfl⟩ | ⟨f, o, c1, h1, hrest⟩
-  · obtain ⟨m1, ex, ho⟩ := he f c _ h1 m hi
+  · obtain ⟨m1, ex, ho⟩ := he.run f c _ h1 m hi
     refine ⟨m1, ?_, ho⟩
     rw [map_reverse_append]
     exact execCmds_stop_append _ ex (by simp)
-  · obtain ⟨m1, ex1, hi1, hc1, hk1, hh1⟩ := he f c _ h1 m hi
+  · obtain ⟨m1, ex1, hi1, hc1, hk1, hh1⟩ := he.run f c _ h1 m hi
     rcases hrest with ⟨f', k, c2, h2, rfl⟩ | ⟨f', os, c2, h2, rfl⟩
-    · obtain ⟨m2, ex2, ho⟩ := hr f' c1 _ h2 m1 hi1
+    · obtain ⟨m2, ex2, ho⟩ := hr.run f' c1 _ h2 m1 hi1
       refine ⟨m2, ?_, ho⟩
       rw [map_reverse_append]
       exact execCmds_append ex1 ex2
-    · obtain ⟨m2, ex2, hi2, hc2, hk2, hh2⟩ := hr f' c1 _ h2 m1 hi1
+    · obtain ⟨m2, ex2, hi2, hc2, hk2, hh2⟩ := hr.run f' c1 _ h2 m1 hi1
       refine ⟨m2, ?_, hi2, hc1.trans hc2, hk1.trans hk2 (by omega), fun _ => ?_⟩
       · rw [map_reverse_append]
         exact execCmds_append ex1 ex2
@@ -212,8 +220,9 @@ theorem print_semF {ctx : Ctx} {T : List FEntry} {B : Nat} (hT : TableOK T) (hct
   subst e1
   have h2' : addLine (.echo (" ".intercalate vals)) (adv s new n) = .ok ((), s') := h2
   have es' := addLine_ok h2'
-  refine ⟨(new.reverse ++ [Line.echo (" ".intercalate vals)]).map Cmd.simple, n, 0, ?_, ?_⟩
+  refine ⟨(new.reverse ++ [Line.echo (" ".intercalate vals)]).map Cmd.simple, n, 0, ?_, ?_, ?_⟩
   · rw [es', flats_simples]; simp [adv, adv2]
+  · exact linesOK_simples (((sim.lines.reverse).mono (Nat.zero_le _)).append (linesOK_plain1 _ _ _ _ rfl rfl))
   · intro fuel c o c' hs m hi
     cases fuel with
     | zero => simp [execS] at hs
@@ -225,7 +234,7 @@ theorem print_semF {ctx : Ctx} {T : List FEntry} {B : Nat} (hT : TableOK T) (hct
         · rename_i vs hvs
           simp only [Option.some.injEq, Prod.mk.injEq] at hs
           obtain ⟨rfl, rfl⟩ := hs
-          obtain ⟨m1, ex, hi1, hc1, hk1, hh⟩ := runs_ok_then (sim f c _ ha m hi)
+          obtain ⟨m1, ex, hi1, hc1, hk1, hh⟩ := runs_ok_then (sim.run f c _ ha m hi)
           have hcmp := holdsAllF_intercalate hi1.agree hh hvs
           have hst : stepSimple (.echo (" ".intercalate vals)) m1 = some (.normal, { m1 with out := m1.out ++ [" ".intercalate (vs.map Val.render)] }) := by
             simp only [stepSimple, hcmp.toExpand]
@@ -242,7 +251,7 @@ theorem print_semF {ctx : Ctx} {T : List FEntry} {B : Nat} (hT : TableOK T) (hct
         simp only [Option.some.injEq, Prod.mk.injEq] at hs
         obtain ⟨rfl, rfl⟩ := hs
         rw [List.map_append]
-        exact simF_exit_of_runs (sim f c _ ha m hi) _ _
+        exact simF_exit_of_runs (sim.run f c _ ha m hi) _ _
       · simp at hs
 
 theorem panic_semF {ctx : Ctx} {T : List FEntry} {B : Nat} (hT : TableOK T) (hctx : CtxOK ctx T B) {e : Expr}
@@ -257,8 +266,12 @@ theorem panic_semF {ctx : Ctx} {T : List FEntry} {B : Nat} (hT : TableOK T) (hct
   obtain ⟨_, s2, h3, h4⟩ := bind_ok h2'
   have e3 := addLine_ok h3
   have e4 := addLine_ok h4
-  refine ⟨new.reverse.map Cmd.simple ++ [Cmd.simple (.echo ("panic: " ++ firstValue r)), Cmd.simple .exit1], n, 0, ?_, ?_⟩
+  refine ⟨new.reverse.map Cmd.simple ++ [Cmd.simple (.echo ("panic: " ++ firstValue r)), Cmd.simple .exit1], n, 0, ?_, ?_, ?_⟩
   · rw [e4, e3, flats_append, flats_simples]; simp [adv, adv2, flats, flat]
+  · rw [flats_append, flats_simples]
+    refine ((sim.lines.reverse).mono (Nat.zero_le _)).append ?_
+    exact linesOK_simples (ls := [.echo ("panic: " ++ firstValue r), .exit1])
+      (LinesOK.cons (sline_plain _ _ _ _ rfl rfl) (linesOK_plain1 _ _ _ _ rfl rfl))
   · intro fuel c o c' hs m hi
     cases fuel with
     | zero => simp [execS] at hs
@@ -270,7 +283,7 @@ theorem panic_semF {ctx : Ctx} {T : List FEntry} {B : Nat} (hT : TableOK T) (hct
         · rename_i v hv
           simp only [Option.some.injEq, Prod.mk.injEq] at hs
           obtain ⟨rfl, rfl⟩ := hs
-          obtain ⟨m1, ex, hi1, hc1, hk1, hh⟩ := runs_ok_then (sim1 f c _ (single_ok ha) m hi)
+          obtain ⟨m1, ex, hi1, hc1, hk1, hh⟩ := runs_ok_then (sim1.run f c _ (single_ok ha) m hi)
           have hcmp : Complete m1.ρ ("panic: " ++ firstValue r).toList ("panic: " ++ v.render).toList := by
             rw [String.toList_append, String.toList_append]
             refine Complete.append (complete_plain m1.ρ _ ?_) (hh.1 c1 m1 hi1.agree (fun _ _ => rfl) v hv)
@@ -285,7 +298,7 @@ theorem panic_semF {ctx : Ctx} {T : List FEntry} {B : Nat} (hT : TableOK T) (hct
       · rename_i k c1 ha
         simp only [Option.some.injEq, Prod.mk.injEq] at hs
         obtain ⟨rfl, rfl⟩ := hs
-        exact simF_exit_of_runs (sim1 f c _ (single_exit ha) m hi) _ _
+        exact simF_exit_of_runs (sim1.run f c _ (single_exit ha) m hi) _ _
       · simp at hs
 
 /-- the lines that store return values -/
@@ -320,6 +333,14 @@ theorem retLines_sem (ctx : Ctx) : ∀ (ts : List String) (os : List Opd) (vs : 
   | [], _ :: _, _, _, _, _, _, _, hh, _ => hh.elim
   | _ :: _, [], _, _, _, _, _, _, hh, _ => hh.elim
 
+theorem retLines_ok (ctx : Ctx) (hi : Nat) (ds : List String) : ∀ (ts : List String) (i : Nat), LinesOK ctx hi ds (C02.retLines ts i)
+  | [], _ => LinesOK.nil _ _ _
+  | t :: ts, i => by
+    simp only [C02.retLines]
+    refine LinesOK.cons ⟨fun x hx => ?_, fun nm ar e => by cases e⟩ (retLines_ok ctx hi ds ts (i + 1))
+    simp only [lineTargets, List.mem_singleton] at hx
+    exact Or.inr (Or.inr (Or.inr (Or.inl ⟨i, by rw [hx]; rfl⟩)))
+
 theorem ret_semF {ctx : Ctx} {T : List FEntry} {B : Nat} (hT : TableOK T) (hctx : CtxOK ctx T B) {vals : List Expr}
     (hf : fragEs (tnames T) vals = true) {s s' : St} (hc : ctxOf s = ctx)
     (h : (do let vs ← Tr.evalArgs conv vals; conv.ret vs : BM Unit) s = .ok ((), s')) :
@@ -333,8 +354,11 @@ theorem ret_semF {ctx : Ctx} {T : List FEntry} {B : Nat} (hT : TableOK T) (hctx 
   injection h3 with h3
   injection h3 with _ e3
   have e4 := addLine_ok h4
-  refine ⟨new.reverse.map Cmd.simple ++ ((C02.retLines ts 0).map Cmd.simple ++ [Cmd.simple .ret]), n, 0, ?_, ?_⟩
+  refine ⟨new.reverse.map Cmd.simple ++ ((C02.retLines ts 0).map Cmd.simple ++ [Cmd.simple .ret]), n, 0, ?_, ?_, ?_⟩
   · rw [e4, ← e3, flats_append, flats_append, flats_simples, flats_simples]; simp [adv, adv2, flats, flat]
+  · rw [flats_append, flats_append, flats_simples, flats_simples]
+    refine ((sim.lines.reverse).mono (Nat.zero_le _)).append ((retLines_ok ctx _ _ ts 0).append ?_)
+    exact linesOK_simples (ls := [.ret]) (linesOK_plain1 _ _ _ _ rfl rfl)
   · intro fuel c o c' hs m hi
     cases fuel with
     | zero => simp [execS] at hs
@@ -346,7 +370,7 @@ theorem ret_semF {ctx : Ctx} {T : List FEntry} {B : Nat} (hT : TableOK T) (hctx 
         · rename_i vs hvs
           simp only [Option.some.injEq, Prod.mk.injEq] at hs
           obtain ⟨rfl, rfl⟩ := hs
-          obtain ⟨m1, ex, hi1, hc1, hk1, hh⟩ := runs_ok_then (sim f c _ ha m hi)
+          obtain ⟨m1, ex, hi1, hc1, hk1, hh⟩ := runs_ok_then (sim.run f c _ ha m hi)
           obtain ⟨m2, ex2, ha2, hc2, ho2, hv2, hfr2⟩ := retLines_sem ctx ts os vs 0 _ c1 m1 hi1.agree hh hvs
           refine ⟨m2, .ret, ?_, trivial, by rw [ha2.out], fun _ => ⟨⟨ha2, ?_⟩, hc1.trans hc2, ?_⟩, fun vs' hv' => ?_⟩
           · exact execCmds_append ex (execCmds_append ex2 (ExecCmds.stop (ExecCmd.simple rfl rfl) (by simp)))
@@ -362,7 +386,7 @@ theorem ret_semF {ctx : Ctx} {T : List FEntry} {B : Nat} (hT : TableOK T) (hctx 
       · rename_i k c1 ha
         simp only [Option.some.injEq, Prod.mk.injEq] at hs
         obtain ⟨rfl, rfl⟩ := hs
-        exact simF_exit_of_runs (sim f c _ ha m hi) _ _
+        exact simF_exit_of_runs (sim.run f c _ ha m hi) _ _
       · simp at hs
 
 /-! ### assignments -/
@@ -466,14 +490,17 @@ theorem assign1_semF {ctx : Ctx} {T : List FEntry} {B : Nat} (hT : TableOK T) (h
   obtain ⟨new, n, e1, sim⟩ := expr_semF hT hctx e s r s1 hf hc hr
   subst e1
   have sim1 := esim_first sim
-  refine ⟨(new.reverse ++ [Line.assign (ctx.mg x.name x.global) (firstValue r)]).map Cmd.simple, n, 0, ?_, ?_⟩
+  refine ⟨(new.reverse ++ [Line.assign (ctx.mg x.name x.global) (firstValue r)]).map Cmd.simple, n, 0, ?_, ?_, ?_⟩
   · rw [es', flats_simples, varName_ctx, ctxOf_adv, hc]
     simp [adv, adv2]
+  · refine linesOK_simples (((sim.lines.reverse).mono (Nat.zero_le _)).append (LinesOK.cons ⟨fun y hy => ?_, fun nm ar e' => by cases e'⟩ (LinesOK.nil _ _ _)))
+    simp only [lineTargets, List.mem_singleton] at hy
+    exact Or.inr (Or.inr (Or.inl ⟨x.name, x.global, hx, hy⟩))
   · intro fuel c o c' hs m hi
     rcases hsrc fuel c o c' hs with ⟨f, k, he, rfl⟩ | ⟨f, ov, c1, v, he, hv, rfl, rfl⟩
     · rw [List.map_append]
-      exact simF_exit_of_runs (sim1 f c _ (single_exit he) m hi) _ _
-    · obtain ⟨m1, ex, hi1, hc1, hk1, hh⟩ := runs_ok_then (sim1 f c _ (single_ok he) m hi)
+      exact simF_exit_of_runs (sim1.run f c _ (single_exit he) m hi) _ _
+    · obtain ⟨m1, ex, hi1, hc1, hk1, hh⟩ := runs_ok_then (sim1.run f c _ (single_ok he) m hi)
       have hst := step2_assign m1 (ctx.mg x.name x.global) (hh.1.expand hi1.agree hv)
       refine ⟨{ m1 with ρ := m1.ρ.set (ctx.mg x.name x.global) v.render }, .normal, ?_, trivial, ?_,
         fun _ => ⟨hi1.write x v hx, hc1, ?_⟩, fun vs hv' => by cases hv'⟩
@@ -512,14 +539,19 @@ theorem call_unused_semF {ctx : Ctx} {T : List FEntry} {B : Nat} (hT : TableOK T
     simp only [tnames, List.mem_map] at this
     exact this
   subst hen
-  refine ⟨Line.callFn e.fd.name as :: newA, nA, by rw [es, es2, e4, e3]; simp [adv], ?_⟩
+  refine ⟨Line.callFn e.fd.name as :: newA, nA, by rw [es, es2, e4, e3]; simp [adv], ⟨?_, ?_⟩⟩
+  · refine LinesOK.cons ⟨fun x hx => by simp [lineTargets] at hx, fun nm ar e' => ?_⟩ simA.lines
+    simp only [Line.callFn.injEq] at e'
+    rw [← e'.1]
+    simp only [tnames, List.mem_map]
+    exact ⟨e, he, rfl⟩
   intro fuel c res' hs m hi
   rcases src_call hs with ⟨f, k, c1, hx, rfl⟩ | ⟨f, os, c1, vals, fd, o, c2, hx, hrv, hlk, hvlen, hbody, hres⟩
-  · obtain ⟨m1, ex, ho⟩ := simA f c _ hx m hi
+  · obtain ⟨m1, ex, ho⟩ := simA.run f c _ hx m hi
     refine ⟨m1, ?_, ho⟩
     rw [map_reverse_cons]
     exact execCmds_stop_append _ ex (by simp)
-  · obtain ⟨m1, ex1, hi1, hc1, hk1, hh1⟩ := simA f c _ hx m hi
+  · obtain ⟨m1, ex1, hi1, hc1, hk1, hh1⟩ := simA.run f c _ hx m hi
     obtain ⟨Tr, hsuf, hnd, hcf, hmf⟩ := hi1.tables
     have heTr : e ∈ Tr := hsuf.subset he
     have hfd : fd = e.fd := by
@@ -547,8 +579,9 @@ theorem exprcall_semF {ctx : Ctx} {T : List FEntry} {B : Nat} (hT : TableOK T) (
   obtain ⟨_, es⟩ := pure_ok h2
   obtain ⟨new, n, e1, sim⟩ := call_unused_semF hT hctx hf hc h1
   subst e1
-  refine ⟨new.reverse.map Cmd.simple, n, 0, ?_, ?_⟩
+  refine ⟨new.reverse.map Cmd.simple, n, 0, ?_, ?_, ?_⟩
   · rw [es, flats_simples]; simp [adv, adv2]
+  · exact linesOK_simples ((sim.lines.reverse).mono (Nat.zero_le _))
   · intro fuel c o c' hs m hi
     cases fuel with
     | zero => simp [execS] at hs
@@ -558,12 +591,12 @@ theorem exprcall_semF {ctx : Ctx} {T : List FEntry} {B : Nat} (hT : TableOK T) (
       · rename_i os c1 ha
         simp only [Option.some.injEq, Prod.mk.injEq] at hs
         obtain ⟨rfl, rfl⟩ := hs
-        obtain ⟨m1, ex, hi1, hc1, hk1, _⟩ := sim f c _ ha m hi
+        obtain ⟨m1, ex, hi1, hc1, hk1, _⟩ := sim.run f c _ ha m hi
         exact ⟨m1, .normal, ex, trivial, hi1.out, fun _ => ⟨hi1, hc1, hk1.flagsKept⟩, fun vs hv => by cases hv⟩
       · rename_i k c1 ha
         simp only [Option.some.injEq, Prod.mk.injEq] at hs
         obtain ⟨rfl, rfl⟩ := hs
-        obtain ⟨m1, ex, ho⟩ := sim f c _ ha m hi
+        obtain ⟨m1, ex, ho⟩ := sim.run f c _ ha m hi
         exact ⟨m1, .exit k, ex, rfl, ho, fun hne => absurd rfl (hne k), fun vs hv => by cases hv⟩
       · simp at hs
 
@@ -585,6 +618,17 @@ theorem storeValues_run : ∀ (vars : List Var) (ts : List String) (s : St),
     simp only [bind, this]
     rw [storeValues_run xs ts]
     simp [storeLines, ctxOf, inFunction]
+
+theorem storeLines_ok (ctx : Ctx) (hi : Nat) (ds : List String) : ∀ (vars : List Var) (ts : List String),
+    (vars.all (fun x => goodName2 x.name)) = true → LinesOK ctx hi ds (storeLines ctx vars ts)
+  | [], _, _ => by simp [storeLines]; exact LinesOK.nil _ _ _
+  | _ :: _, [], _ => by simp [storeLines]; exact LinesOK.nil _ _ _
+  | x :: xs, t :: ts, hg => by
+    simp only [List.all_cons, Bool.and_eq_true] at hg
+    simp only [storeLines]
+    refine LinesOK.cons ⟨fun y hy => ?_, fun nm ar e => by cases e⟩ (storeLines_ok ctx hi ds xs ts hg.2)
+    simp only [lineTargets, List.mem_singleton] at hy
+    exact Or.inr (Or.inr (Or.inl ⟨x.name, x.global, hg.1, hy⟩))
 
 theorem storeLits_sem (ctx : Ctx) (T : List FEntry) (B k : Nat) : ∀ (vars : List Var) (ts : List String) (vs : List Val) (n : Nat) (c : SCfg) (m : Cfg),
     (vars.all (fun x => goodName2 x.name)) = true → vs.length = vars.length → Inv ctx T c m → HoldsAllF ctx ts (vs.map Opd.lit) n m.ρ →
@@ -627,12 +671,14 @@ theorem callassign_semF {ctx : Ctx} {T : List FEntry} {B : Nat} (hT : TableOK T)
   · rw [storeValues_run] at h2
     injection h2 with h2
     injection h2 with _ e2
-    refine ⟨new.reverse.map Cmd.simple ++ (storeLines ctx vars ts).map Cmd.simple, n, 0, ?_, ?_⟩
+    refine ⟨new.reverse.map Cmd.simple ++ (storeLines ctx vars ts).map Cmd.simple, n, 0, ?_, ?_, ?_⟩
     · rw [← e2, flats_append, flats_simples, flats_simples, ctxOf_adv, hc]; simp [adv, adv2]
+    · rw [flats_append, flats_simples, flats_simples]
+      exact ((sim.lines.reverse).mono (Nat.zero_le _)).append (storeLines_ok ctx _ _ vars ts hg)
     · intro fuel c o c' hs m hi
       rcases hsrc fuel c o c' hs with ⟨f, k, he, rfl⟩ | ⟨f, vs, c1, he, hvl, rfl, rfl⟩
-      · exact simF_exit_of_runs (sim f c _ he m hi) _ _
-      · obtain ⟨m1, ex, hi1, hc1, hk1, hh⟩ := runs_ok_then (sim f c _ he m hi)
+      · exact simF_exit_of_runs (sim.run f c _ he m hi) _ _
+      · obtain ⟨m1, ex, hi1, hc1, hk1, hh⟩ := runs_ok_then (sim.run f c _ he m hi)
         obtain ⟨m2, ex2, hi2, hc2, hf2⟩ := storeLits_sem ctx T B s.forCounter vars ts vs _ c1 m1 hg hvl hi1 hh
         exact ⟨m2, .normal, execCmds_append ex ex2, trivial, hi2.out,
           fun _ => ⟨hi2, hc1.trans hc2, (hk1.flagsKept).trans hf2 (Nat.le_refl _)⟩, fun vs' hv => by cases hv⟩
